@@ -295,6 +295,46 @@ func c19NewKids(caps []capsT) ([]*c19Child, *int64) {
 	return kids, sh
 }
 
+// c19ZeroChild is a child that is a VALUE of a type without state (like tally.NullStatsReporter, a `struct{}`): the
+// interface holding it holds the type's zero value, which is a perfectly good reporter.  It forwards every call to the
+// recording child of the current session it stands for.
+type c19ZeroChild struct{}
+
+var c19ZeroTarget *c19Child
+
+func (c19ZeroChild) ReportCounter(name string, tags map[string]string, v int64) {
+	c19ZeroTarget.ReportCounter(name, tags, v)
+}
+func (c19ZeroChild) ReportGauge(name string, tags map[string]string, v float64) {
+	c19ZeroTarget.ReportGauge(name, tags, v)
+}
+func (c19ZeroChild) ReportTimer(name string, tags map[string]string, d time.Duration) {
+	c19ZeroTarget.ReportTimer(name, tags, d)
+}
+func (c19ZeroChild) ReportHistogramValueSamples(name string, tags map[string]string, b tally.Buckets, lo, hi float64, n int64) {
+	c19ZeroTarget.ReportHistogramValueSamples(name, tags, b, lo, hi, n)
+}
+func (c19ZeroChild) ReportHistogramDurationSamples(name string, tags map[string]string, b tally.Buckets, lo, hi time.Duration, n int64) {
+	c19ZeroTarget.ReportHistogramDurationSamples(name, tags, b, lo, hi, n)
+}
+func (c19ZeroChild) Capabilities() tally.Capabilities { return c19ZeroTarget.Capabilities() }
+func (c19ZeroChild) Flush()                           { c19ZeroTarget.Flush() }
+func (c19ZeroChild) AllocateCounter(name string, tags map[string]string) tally.CachedCount {
+	return c19ZeroTarget.AllocateCounter(name, tags)
+}
+func (c19ZeroChild) AllocateGauge(name string, tags map[string]string) tally.CachedGauge {
+	return c19ZeroTarget.AllocateGauge(name, tags)
+}
+func (c19ZeroChild) AllocateTimer(name string, tags map[string]string) tally.CachedTimer {
+	return c19ZeroTarget.AllocateTimer(name, tags)
+}
+func (c19ZeroChild) AllocateHistogram(name string, tags map[string]string, b tally.Buckets) tally.CachedHistogram {
+	return c19ZeroTarget.AllocateHistogram(name, tags, b)
+}
+
+// c19ZeroAt, when >= 0, makes the next session hand child number c19ZeroAt to the constructor as a c19ZeroChild{} value
+var c19ZeroAt = -1
+
 // c19Shape, when set, makes the next session NEST its children: consecutive groups of the given sizes; a group of two
 // or more children becomes a multi reporter of its own (same flavour) that is handed to the outer one as ONE child.
 // A multi reporter is a reporter, so this is an ordinary configuration; every call reaches the same recording children
@@ -319,16 +359,35 @@ func c19NewSession(flavour string, caps []capsT) *c19Session {
 			shape = append(shape, 1)
 		}
 	}
+	zeroAt := c19ZeroAt
+	c19ZeroAt = -1
+	if zeroAt >= 0 && zeroAt < len(s.kids) {
+		c19ZeroTarget = s.kids[zeroAt]
+	} else {
+		zeroAt = -1
+	}
+	plainOf := func(i int) tally.StatsReporter {
+		if i == zeroAt {
+			return c19ZeroChild{}
+		}
+		return s.kids[i]
+	}
+	cachedOf := func(i int) tally.CachedStatsReporter {
+		if i == zeroAt {
+			return c19ZeroChild{}
+		}
+		return s.kids[i]
+	}
 	if flavour == "plain" {
 		var rs []tally.StatsReporter
 		at := 0
 		for _, g := range shape {
 			if g == 1 {
-				rs = append(rs, s.kids[at])
+				rs = append(rs, plainOf(at))
 			} else {
 				var inner []tally.StatsReporter
-				for _, k := range s.kids[at : at+g] {
-					inner = append(inner, k)
+				for i := at; i < at+g; i++ {
+					inner = append(inner, plainOf(i))
 				}
 				rs = append(rs, multi.NewMultiReporter(inner...))
 			}
@@ -340,11 +399,11 @@ func c19NewSession(flavour string, caps []capsT) *c19Session {
 		at := 0
 		for _, g := range shape {
 			if g == 1 {
-				rs = append(rs, s.kids[at])
+				rs = append(rs, cachedOf(at))
 			} else {
 				var inner []tally.CachedStatsReporter
-				for _, k := range s.kids[at : at+g] {
-					inner = append(inner, k)
+				for i := at; i < at+g; i++ {
+					inner = append(inner, cachedOf(i))
 				}
 				rs = append(rs, multi.NewMultiCachedReporter(inner...))
 			}
@@ -901,6 +960,11 @@ func suiteC19(c *Ctx) {
 			}
 			c19Shape = shape
 			c.Cov.Hit("children.nested")
+		}
+		if n >= 1 && r.Chance(20) {
+			// one child is a stateless VALUE (the zero value of its type), as tally.NullStatsReporter is
+			c19ZeroAt = r.Intn(n)
+			c.Cov.Hit("children.one-is-a-zero-value")
 		}
 		s := c19RunSession(c, r, fl, caps, length)
 		s.count(c)
